@@ -220,6 +220,27 @@ func (l *Loaded) keyLayoutEnv(fn *ssa.Function, env *klEnv, depth int) *keyLayou
 					}
 				}
 				kl.segs = append(kl.segs, classify(v))
+			case full == "builtin.copy" && isByteSlice(args[0].Type()):
+				// key := make([]byte, n); copy(key[k:], part) ... : the parts in the order they are copied (straight-line
+				// builders only; the destination offsets are taken to follow one another, as the running length does)
+				if loopHeaderOf(b) != nil {
+					fail("copy into the key inside a loop")
+				}
+				src := args[1]
+				if inner, ok := src.(*ssa.Call); ok {
+					if g := inner.Call.StaticCallee(); g != nil && g.Blocks != nil && g != fn && fnPkgPath(g) == fnPkgPath(fn) && isBytesResult(g) {
+						sub := l.keyLayoutEnv(g, bindArgs(g, inner, env), depth+1)
+						if !sub.ok {
+							fail("inlined builder %s: %s", g.Name(), sub.why)
+						}
+						if len(kl.segs) == 0 {
+							kl.lead = sub.lead
+						}
+						kl.segs = append(kl.segs, sub.segs...)
+						continue
+					}
+				}
+				kl.segs = append(kl.segs, classify(src))
 			case full == "(*bytes.Buffer).WriteString":
 				s := Sym(args[1])
 				if k, ok := strConst(args[1]); ok {
@@ -367,6 +388,9 @@ func (l *Loaded) keyBuilders(rel string) map[string]*keyLayout {
 			if strings.HasPrefix(calleeFull(call), "(*bytes.Buffer).") || calleeFull(call) == "bytes.NewBuffer" {
 				uses = true
 			}
+			if calleeFull(call) == "builtin.copy" && len(call.Common().Args) == 2 && isByteSlice(call.Common().Args[0].Type()) && call.Parent() == fn {
+				uses = true
+			}
 		}
 		if !uses {
 			continue
@@ -404,4 +428,13 @@ func (l *Loaded) keyBuilders(rel string) map[string]*keyLayout {
 		}
 	}
 	return out
+}
+
+func isByteSlice(t types.Type) bool {
+	sl, ok := t.Underlying().(*types.Slice)
+	if !ok {
+		return false
+	}
+	b, ok := sl.Elem().Underlying().(*types.Basic)
+	return ok && b.Kind() == types.Byte
 }
